@@ -375,7 +375,7 @@ class Circuit:
 
     def serialize(self):
         if not isinstance(self.name, str):
-            return TypeError("Name of circuit object must be a string")
+            raise TypeError("Name of circuit object must be a string")
         return {"name": self.name, "type": "QuantumCircuit", "gates": [gate.serialize() for gate in self._gates]}
 
     def remove_small_rotations(self, param_threshold=1e-3, remove_qubits=False):
